@@ -278,10 +278,28 @@ pub fn is_v1_mime_response(raw_response: &[u8]) -> bool {
     // that offset falls inside a multi-byte character
     let first_512 = String::from_utf8_lossy(&raw_response[..raw_response.len().min(512)]);
 
+    // Only the header block counts: a bare BPSV document may carry the words
+    // "Content-Type: multipart/alternative" inside a data field. A MIME message starts
+    // with a header field ("Name: value"), a BPSV document with a schema line
+    // ("Name!TYPE:len|...") whose text before the first ':' is not a field name
+    let head = first_512
+        .split("\r\n\r\n")
+        .next()
+        .and_then(|h| h.split("\n\n").next())
+        .unwrap_or_default()
+        .to_lowercase();
+    let starts_with_header_field = head
+        .lines()
+        .next()
+        .and_then(|line| line.split_once(':'))
+        .is_some_and(|(name, _)| {
+            !name.is_empty() && name.chars().all(|c| c.is_ascii_alphanumeric() || c == '-')
+        });
+
     // Look for MIME headers indicating multipart content
-    first_512.to_lowercase().contains("content-type:")
-        && (first_512.to_lowercase().contains("multipart/alternative")
-            || first_512.to_lowercase().contains("multipart/mixed"))
+    starts_with_header_field
+        && head.contains("content-type:")
+        && (head.contains("multipart/alternative") || head.contains("multipart/mixed"))
 }
 
 #[cfg(test)]
